@@ -179,6 +179,7 @@ struct Exec {
     bool excl_zero_freq = false, excl_unknown_rollback = false;
 
     bool quiet = false;               // destructor path: free without telling the observer
+    const char *strict_fn = getenv("APIX_STRICT");
     bool no_exclude = getenv("APIX_NO_EXCLUDE") != nullptr;   // developer switch: generate the regions of the open findings too
 
     Exec(Ctx &c_, Observer *o) : c(c_), obs(o), pg(c_) {}
@@ -192,6 +193,8 @@ struct Exec {
     void post(Call &k, bool failed, long iret) {
         k.err = errno; k.failed = failed; k.iret = iret; ncalls++;
         track(k);
+        if (strict_fn && k.expect == XP_OK && failed && !strcmp(strict_fn, k.fn))      // developer aid: APIX_STRICT=<function> stops at a valid call that fails
+            throw pbt::Fail{"apix.valid_failed", std::string(k.fn) + " with valid arguments failed: errno " + std::to_string(k.err) + " " + (k.log ? k.log->text() : std::string())};
         obs->after(*this, k);
         if (k.log) k.log->clear();
     }
